@@ -24,10 +24,14 @@ pub fn viol(sig: impl Into<String>, msg: impl Into<String>) -> CaseResult {
 }
 
 pub fn build_rt(flavor: u8) -> tokio::runtime::Runtime {
+    build_rt_named(flavor, "case-rt")
+}
+
+fn build_rt_named(flavor: u8, name: &str) -> tokio::runtime::Runtime {
     match flavor % 3 {
         0 => tokio::runtime::Builder::new_current_thread().enable_all().build().unwrap(),
-        1 => tokio::runtime::Builder::new_multi_thread().worker_threads(2).enable_all().build().unwrap(),
-        _ => tokio::runtime::Builder::new_multi_thread().worker_threads(4).enable_all().build().unwrap(),
+        1 => tokio::runtime::Builder::new_multi_thread().worker_threads(2).thread_name(name).enable_all().build().unwrap(),
+        _ => tokio::runtime::Builder::new_multi_thread().worker_threads(4).thread_name(name).enable_all().build().unwrap(),
     }
 }
 
@@ -36,17 +40,31 @@ pub fn run_on<F, T>(flavor: u8, bound: Duration, fut: F) -> Option<T>
 where
     F: Future<Output = T>,
 {
-    let rt = build_rt(flavor);
+    static RT_SEQ: std::sync::atomic::AtomicU64 = std::sync::atomic::AtomicU64::new(0);
+    let rt_name = format!("case-rt-{}-", RT_SEQ.fetch_add(1, std::sync::atomic::Ordering::Relaxed));
+    let rt = build_rt_named(flavor, &rt_name);
     // a panic of the code under test on this thread (current-thread runtime) must not take the
     // harness down: it is recorded by the panic hook and judged by `judge`
     let r = std::panic::catch_unwind(std::panic::AssertUnwindSafe(|| rt.block_on(async { tokio::time::timeout(bound, fut).await.ok() })));
+    // Tearing the runtime down destroys the library's background tasks while application tasks of
+    // the case may still be polled on other worker threads; what they observe then (e.g. the
+    // driver's result channel closed without a result) is an artefact of the teardown, not a
+    // behaviour of a connection that ended: panics logged from this runtime's threads during the
+    // shutdown are tagged and not judged.
+    vcore::mark_teardown(&rt_name, true);
     rt.shutdown_timeout(Duration::from_millis(200));
+    vcore::mark_teardown(&rt_name, false);
     r.unwrap_or(None)
+}
+
+/// A panic logged while the harness was tearing the case's runtime down.
+fn teardown_panic(p: &str) -> bool {
+    p.ends_with("[teardown]")
 }
 
 /// A panic raised inside the library under test (not by the harness, quinn or tokio).
 fn library_panic(p: &str) -> bool {
-    p.contains("/repo/wtransport")
+    p.contains("/repo/wtransport") && !p.ends_with("[teardown]")
 }
 
 /// Liveness rule: where the statement promises completion, a timeout that reproduces on 3 of 3
@@ -77,8 +95,16 @@ pub fn judge(exec: impl Fn() -> CaseResult, liveness_promised: bool, timeout_sig
     }
     match r {
         CaseResult::Pass { nontrivial, labels } => {
-            if let Some(p) = panics.iter().find(|p| !benign_panic(p)) {
-                return Outcome::fail("panic-in-task", format!("a task panicked during the case: {p}"));
+            if let Some(p) = panics.iter().find(|p| !benign_panic(p) && !teardown_panic(p)) {
+                // like every other deviation: reported only if it shows again
+                for _ in 0..3 {
+                    let before = vcore::panic_log_len();
+                    let _ = exec();
+                    if vcore::panic_log_since(before).iter().any(|q| !benign_panic(q) && !teardown_panic(q)) {
+                        return Outcome::fail("panic-in-task", format!("a task panicked during the case (reproduced): {p}"));
+                    }
+                }
+                return Outcome::Inconclusive(format!("a task panicked once during the case but not in 3 re-executions: {p}"));
             }
             Outcome::pass_l(nontrivial, labels)
         }
